@@ -1,0 +1,74 @@
+//! Verification hooks (feature `verif-hooks`, off by default, add-only).
+//!
+//! Read/write access to the crate-private stall-guard, quality-cache and
+//! timeout fields of [`SrtlaConnection`], so an external harness can inject
+//! arbitrary link states and observe the guard-private state after a
+//! selection pass. No production code path calls anything in here.
+
+use super::{CachedQuality, SrtlaConnection};
+
+/// Plain copy of the crate-private per-link fields.
+#[derive(Debug, Clone, Copy, PartialEq)]
+pub struct VerifPrivate {
+    pub stall_gated: bool,
+    pub stall_latched_since_ms: u64,
+    pub stall_recovery_since_ms: u64,
+    pub stall_gate_events: u64,
+    pub stall_probe_counter: u32,
+    pub silence_pulled: bool,
+    pub silence_pulls: u64,
+    pub conn_timeout_ms: u64,
+    pub quality_multiplier: f64,
+    pub quality_calculated_ms: u64,
+}
+
+impl SrtlaConnection {
+    pub fn verif_private(&self) -> VerifPrivate {
+        VerifPrivate {
+            stall_gated: self.stall_gated,
+            stall_latched_since_ms: self.stall_latched_since_ms,
+            stall_recovery_since_ms: self.stall_recovery_since_ms,
+            stall_gate_events: self.stall_gate_events,
+            stall_probe_counter: self.stall_probe_counter,
+            silence_pulled: self.silence_pulled,
+            silence_pulls: self.silence_pulls,
+            conn_timeout_ms: self.conn_timeout_ms,
+            quality_multiplier: self.quality_cache.multiplier,
+            quality_calculated_ms: self.quality_cache.last_calculated_ms,
+        }
+    }
+
+    pub fn verif_set_private(&mut self, p: VerifPrivate) {
+        self.stall_gated = p.stall_gated;
+        self.stall_latched_since_ms = p.stall_latched_since_ms;
+        self.stall_recovery_since_ms = p.stall_recovery_since_ms;
+        self.stall_gate_events = p.stall_gate_events;
+        self.stall_probe_counter = p.stall_probe_counter;
+        self.silence_pulled = p.silence_pulled;
+        self.silence_pulls = p.silence_pulls;
+        self.conn_timeout_ms = p.conn_timeout_ms;
+        self.quality_cache = CachedQuality {
+            multiplier: p.quality_multiplier,
+            last_calculated_ms: p.quality_calculated_ms,
+        };
+    }
+
+    /// Sorted `(seq, send_time_ms)` view of the packet log.
+    pub fn verif_packet_log(&self) -> Vec<(i32, u64)> {
+        let mut v: Vec<(i32, u64)> = self.packet_log.iter().map(|(k, v)| (*k, *v)).collect();
+        v.sort_unstable();
+        v
+    }
+
+    pub fn verif_highest_acked_seq(&self) -> i32 {
+        self.highest_acked_seq
+    }
+
+    pub fn verif_last_keepalive_sent(&self) -> Option<u64> {
+        self.last_keepalive_sent
+    }
+
+    pub fn verif_set_last_keepalive_sent(&mut self, v: Option<u64>) {
+        self.last_keepalive_sent = v;
+    }
+}
